@@ -5,16 +5,13 @@ Import ListNotations.
 Open Scope N_scope.
 
 Section Proofs.
-Variable dv : devs.
 Variable lib : call -> bool.
 
-Notation step := (step dv lib).
-Notation run := (run dv lib).
-Notation validate := (validate dv lib).
-Notation made_call := (made_call dv).
-Notation respects_features := (respects_features dv lib).
-Notation reaches := (reaches dv lib).
-Notation passes := (passes dv lib).
+Notation step := (step lib).
+Notation run := (run lib).
+Notation validate := (validate lib).
+Notation reaches := (reaches lib).
+Notation passes := (passes lib).
 
 Definition expected (a : vargs) (x : item) : bool := lib (expected_call a (it_route x) (it_src x)).
 
@@ -150,18 +147,11 @@ Proof.
   intros a Hs. unfold Cli.validate. rewrite Hs. destruct (run a (todo a)). cbn. auto.
 Qed.
 
-(* made call = expected call, except at the two feature-dropping call sites *)
-Lemma respects_made_expected : forall a x,
-  respects_features a x = true -> lib (made_call a (it_route x) (it_src x)) = expected a x.
+(* every route makes exactly the call the property asks for *)
+Lemma made_is_expected : forall a x,
+  lib (made_call a (it_route x) (it_src x)) = expected a x.
 Proof.
-  intros a x. unfold Cli.respects_features, Cli.kf_cbor_features_dropped,
-    Cli.kf_stdin_json_features_dropped, expected, Cli.made_call, expected_call.
-  destruct (it_route x); try reflexivity.
-  - destruct (dev_cbor_drops dv); [|reflexivity]. cbn [andb orb]. rewrite orb_false_r.
-    rewrite negb_involutive. intros H. apply eqb_prop in H. exact H.
-  - destruct (s_utf8 (it_src x)); [|reflexivity].
-    destruct (dev_stdin_json_drops dv); [|reflexivity]. cbn [andb orb].
-    rewrite negb_involutive. intros H. apply eqb_prop in H. exact H.
+  intros a x. unfold expected, Cli.made_call, expected_call. destruct (it_route x); reflexivity.
 Qed.
 
 Lemma step_succ : forall a x, step a x = OSucc <->
@@ -188,26 +178,25 @@ Qed.
 
 (* soundness of a success report needs no reachability premise *)
 Theorem report_sound : forall a x,
-  In (x, OSucc) (r_reports (validate a)) -> respects_features a x = true ->
+  In (x, OSucc) (r_reports (validate a)) ->
   In x (todo a) /\ usable x = true /\ expected a x = true.
 Proof.
-  intros a x Hin Hr. unfold Cli.validate in Hin. destruct (v_schema a) eqn:Hs; try contradiction.
+  intros a x Hin. unfold Cli.validate in Hin. destruct (v_schema a) eqn:Hs; try contradiction.
   destruct (run a (todo a)) as [rs e] eqn:Hrun. cbn [r_reports] in Hin.
   assert (H := run_reports_step a (todo a) x OSucc). rewrite Hrun in H. cbn [fst] in H.
   destruct (H Hin) as [Hst Hin']. symmetry in Hst. apply step_succ in Hst. destruct Hst as [Hu Hl].
-  rewrite respects_made_expected in Hl by exact Hr. auto.
+  rewrite made_is_expected in Hl. auto.
 Qed.
 
-Theorem report_iff_lib_partial : forall a pre x post,
+Theorem report_iff_lib : forall a pre x post,
   v_schema a = SOk -> todo a = pre ++ x :: post -> reaches a pre = true -> usable x = true ->
-  respects_features a x = true ->
   (In (x, OSucc) (r_reports (validate a)) <-> expected a x = true).
 Proof.
-  intros a pre x post Hs Htodo Hre Hu Hr. split.
-  - intros Hin. destruct (report_sound a x Hin Hr) as [_ [_ H]]. exact H.
+  intros a pre x post Hs Htodo Hre Hu. split.
+  - intros Hin. destruct (report_sound a x Hin) as [_ [_ H]]. exact H.
   - intros He. destruct (validate_ok a Hs) as [Hrep _]. rewrite Hrep, Htodo.
     assert (Hst : step a x = OSucc).
-    { apply step_succ. split; [exact Hu|]. rewrite respects_made_expected by exact Hr. exact He. }
+    { apply step_succ. split; [exact Hu|]. rewrite made_is_expected. exact He. }
     rewrite <- Hst. apply run_reached. exact Hre.
 Qed.
 
@@ -251,16 +240,15 @@ Proof.
     unfold Cli.validate. destruct (v_schema a); try reflexivity; [congruence | exact Hci].
 Qed.
 
-Theorem ci_exit_iff_partial : forall a, v_ci a = true ->
-  (forall x, In x (todo a) -> respects_features a x = true) ->
+Theorem ci_exit_iff : forall a, v_ci a = true ->
   (r_fail (validate a) = true <->
    v_schema a <> SOk \/ exists x, In x (todo a) /\ (usable x = false \/ expected a x = false)).
 Proof.
-  intros a Hci Hr. rewrite ci_exit_iff_made by exact Hci. split.
+  intros a Hci. rewrite ci_exit_iff_made by exact Hci. split.
   - intros [H|[x [Hin Hx]]]; [left; exact H | right]. exists x. split; [exact Hin|].
-    apply step_not_succ in Hx. rewrite respects_made_expected in Hx by (apply Hr; exact Hin). exact Hx.
+    apply step_not_succ in Hx. rewrite made_is_expected in Hx. exact Hx.
   - intros [H|[x [Hin Hx]]]; [left; exact H | right]. exists x. split; [exact Hin|].
-    apply step_not_succ. rewrite respects_made_expected by (apply Hr; exact Hin). exact Hx.
+    apply step_not_succ. rewrite made_is_expected. exact Hx.
 Qed.
 
 Theorem noci_exit_iff : forall a, v_ci a = false ->
@@ -283,86 +271,6 @@ Proof.
 Qed.
 
 End Proofs.
-
-(* ---------- the repaired code satisfies the full statements ---------- *)
-
-Lemma repaired_respects : forall lib a x, respects_features repaired lib a x = true.
-Proof.
-  intros lib a x. unfold respects_features, kf_cbor_features_dropped, kf_stdin_json_features_dropped.
-  destruct (it_route x); reflexivity.
-Qed.
-
-Theorem report_iff_lib_repaired : forall lib a pre x post,
-  v_schema a = SOk -> todo a = pre ++ x :: post -> reaches repaired lib a pre = true -> usable x = true ->
-  (In (x, OSucc) (r_reports (validate repaired lib a)) <-> expected lib a x = true).
-Proof.
-  intros lib a pre x post Hs Ht Hre Hu.
-  apply (report_iff_lib_partial repaired lib a pre x post Hs Ht Hre Hu (repaired_respects lib a x)).
-Qed.
-
-Theorem ci_exit_iff_repaired : forall lib a, v_ci a = true ->
-  (r_fail (validate repaired lib a) = true <->
-   v_schema a <> SOk \/ exists x, In x (todo a) /\ (usable x = false \/ expected lib a x = false)).
-Proof.
-  intros lib a Hci. apply ci_exit_iff_partial; [exact Hci | intros x _; apply repaired_respects].
-Qed.
-
-(* ---------- the code as it stands does not: concrete invocations ---------- *)
-
-Definition doc0 : src := {| s_id := 0; s_exists := true; s_isfile := true; s_utf8 := false |}.
-Definition doc1 : src := {| s_id := 1; s_exists := true; s_isfile := true; s_utf8 := true |}.
-
-(* a library in which document 0 (CBOR) and document 1 (JSON) are valid without features and
-   invalid with the feature list [7] (a schema using `.feature`), as in findings.d/C18.json *)
-Definition lib_w (c : call) : bool :=
-  match c with
-  | CallCbor _ None => true
-  | CallJson _ None => true
-  | _ => false
-  end.
-
-(* cddl [--ci] validate -d s.cddl --features fx --cbor doc0 *)
-Definition inv_cbor (ci : bool) : vargs :=
-  {| v_ci := ci; v_schema := SOk; v_feats := Some [7]; v_hdr := false;
-     v_json := []; v_cbor := [doc0]; v_csv := []; v_stdin := None |}.
-(* cddl [--ci] validate -d s.cddl --features fx --stdin  < doc1 *)
-Definition inv_stdin (ci : bool) : vargs :=
-  {| v_ci := ci; v_schema := SOk; v_feats := Some [7]; v_hdr := false;
-     v_json := []; v_cbor := []; v_csv := []; v_stdin := Some doc1 |}.
-
-Theorem report_iff_lib_refuted_cbor : exists lib a x,
-  v_schema a = SOk /\ todo a = [] ++ x :: [] /\ reaches as_in_repo lib a [] = true /\ usable x = true /\
-  it_route x = RCbor /\
-  In (x, OSucc) (r_reports (validate as_in_repo lib a)) /\ expected lib a x = false.
-Proof.
-  exists lib_w, (inv_cbor false), (RCbor, 0, doc0). vm_compute. repeat split; auto.
-Qed.
-
-Theorem report_iff_lib_refuted_stdin_json : exists lib a x,
-  v_schema a = SOk /\ todo a = [] ++ x :: [] /\ reaches as_in_repo lib a [] = true /\ usable x = true /\
-  it_route x = RStdin /\ s_utf8 (it_src x) = true /\
-  In (x, OSucc) (r_reports (validate as_in_repo lib a)) /\ expected lib a x = false.
-Proof.
-  exists lib_w, (inv_stdin false), (RStdin, 0, doc1). vm_compute. repeat split; auto.
-Qed.
-
-Theorem ci_exit_iff_refuted : exists lib a x,
-  v_ci a = true /\ v_schema a = SOk /\ In x (todo a) /\ usable x = true /\ expected lib a x = false /\
-  r_fail (validate as_in_repo lib a) = false.
-Proof.
-  exists lib_w, (inv_cbor true), (RCbor, 0, doc0). vm_compute. repeat split; auto.
-Qed.
-
-(* the classifiers hold on the witnesses (and only the matching one) *)
-Lemma kf_cbor_on_witness :
-  kf_cbor_features_dropped as_in_repo lib_w (inv_cbor false) (RCbor, 0, doc0) = true
-  /\ kf_stdin_json_features_dropped as_in_repo lib_w (inv_cbor false) (RCbor, 0, doc0) = false.
-Proof. vm_compute. auto. Qed.
-
-Lemma kf_stdin_on_witness :
-  kf_stdin_json_features_dropped as_in_repo lib_w (inv_stdin false) (RStdin, 0, doc1) = true
-  /\ kf_cbor_features_dropped as_in_repo lib_w (inv_stdin false) (RStdin, 0, doc1) = false.
-Proof. vm_compute. auto. Qed.
 
 (* ---------- compile-cddl ---------- *)
 
